@@ -4,6 +4,9 @@ from checks import acct_prop
 
 
 def gen(rng, tier):
+    if rng.random() < 0.15:
+        from harness import scenario
+        return scenario.gen_bust(rng)
     return acct_prop.gen_general(rng, tier, p_minute=0.3, p_div_capture=0.0, p_actions=0.2,
                                  opts=dict(stocks=rng.choice([0, 0, 1]), futures=True, minute_kind='future'))
 
@@ -12,7 +15,7 @@ globals().update(acct_prop.make(
     'C02', coq=['Gen/PosArith.v'], gen_mods=['PosArith'], components=['trade.future', 'settle.future', 'settle.cash', 'views.position', 'views.account', 'reserve.amount', 'bt.reset'],
     clauses=['C02.'], gen=gen,
     rule=('random futures scenarios (by-money and by-volume contracts, both directions, open / close / close-today, order / order_to, expiry inside '
-          'the run, both settlement-price modes, margin multipliers, forced liquidation on/off, daily and minute bars); a case is one recorded '
+          'the run, both settlement-price modes, margin multipliers, forced liquidation on/off, daily and minute bars; plus a wipe-out family: cash chosen so that the value of the account straddles zero between the close and the settlement price of some day); a case is one recorded '
           'step (trade, settlement of an entry, settlement cash of the account, margin / equity / available-cash views) replayed through the Coq '
           'model; distinct non-trivial = distinct step classes (effect x direction x partial close x expiry x settlement mode ...)'),
     assumptions=['float64 rounding not modelled', 'prev_settlement data consistent with the previous settlement (generator contract)']))
